@@ -3,16 +3,15 @@
 # results merged into runner/matrix.json. Never touches /repo or /verif's build.
 what=$1; shift
 cd /verif
-i=0
+base=${MUT_SLOT_BASE:-0}; i=$base
 for p in "$@"; do i=$((i+1)); ( MUT_SLOT=$i python3 runner/muteval.py $what $p > /tmp/mv_$i.log 2>&1 ) & done
 wait
-python3 - "$i" <<'PY'
+python3 - "$base" "$i" <<'PY'
 import json,sys,os
 m=json.load(open('/verif/runner/matrix.json')) if os.path.exists('/verif/runner/matrix.json') else {}
-for i in range(1,int(sys.argv[1])+1):
+for i in range(int(sys.argv[1])+1,int(sys.argv[2])+1):
     f='/tmp/mv_%d/matrix.json'%i
     if os.path.exists(f): m.update(json.load(open(f)))
 json.dump(m,open('/verif/runner/matrix.json','w'),indent=1,sort_keys=True)
 PY
-cat /tmp/mv_*.log
-for j in $(seq $i); do rm -rf /tmp/mv_$j; done
+for j in $(seq $((base+1)) $i); do cat /tmp/mv_$j.log; rm -rf /tmp/mv_$j /tmp/mv_$j.log; done
